@@ -253,7 +253,13 @@ func (sim *BmQSimulator) BmMatrixFromOperation(op []*bmline.BasmLine) (*bmmatrix
 				for i, arg := range op[fundLine].Elements {
 					argName := arg.GetValue()
 					if _, ok := sim.qbitsNum[argName]; ok {
-						localOrder[i] = sim.qbitsNum[argName]
+						// The position of the qbit in the current order: earlier lines of the same
+						// operation may already have moved it
+						for pos, name := range localQBits {
+							if name == argName {
+								localOrder[i] = pos
+							}
+						}
 					} else {
 						// Leaving out the arguments that are not qbits
 						localOrder[i] = -1
